@@ -365,7 +365,8 @@ class CorrelatedExactGPyTorchModel(GPyTorchMultioutputExactModel):
         with torch.no_grad(), torch.autograd.set_detect_anomaly(True):
             res = self.model(test_X)
 
-            means = res.mean.squeeze().numpy(force=True)  # Squeeze the sample dimension
+            # Drop the sample dimension; keep the (N, output_dim) shape also for N = 1
+            means = res.mean.reshape(-1, self.output_dim).numpy(force=True)
             variances = res.covariance_matrix
             variances = variances.numpy(force=True)
 
@@ -402,7 +403,8 @@ class IndependentExactGPyTorchModel(GPyTorchMultioutputExactModel):
         with torch.no_grad(), torch.autograd.set_detect_anomaly(True):
             res = self.model(test_X)
 
-            means = res.mean.squeeze().numpy(force=True)  # Squeeze the sample dimension
+            # Drop the sample dimension; keep the (N, output_dim) shape also for N = 1
+            means = res.mean.reshape(-1, self.output_dim).numpy(force=True)
             variances = torch.einsum("ij,ki->kij", torch.eye(self.output_dim), res.variance).numpy(
                 force=True
             )
